@@ -198,4 +198,94 @@ Section Spec.
     | OSetm m => match k with KVec => True | KBuf => BUF_HDR + siz * m < HALF end
     | _ => True
     end.
+
+  (** ** worlds (two vector handles, one buffer handle) and histories *)
+  Definition ovec_inv (x : option (N * vec)) : Prop :=
+    match x with Some (_, v) => vec_inv v | None => True end.
+  Definition obuf_inv (x : option buf) : Prop :=
+    match x with Some b => buf_inv b | None => True end.
+  Definition world_inv (w : world) : Prop :=
+    ovec_inv (w_v0 w) /\ ovec_inv (w_v1 w) /\ obuf_inv (w_b w).
+
+  Definition wop_pre (w : world) (o : wop) : Prop :=
+    match o with
+    | WV which o' => match get_v w which with
+                     | Some (_, v) => op_pre KVec (a_siz (v_arr v)) o'
+                     | None => True end
+    | WB o' => match w_b w with
+               | Some b => op_pre KBuf (a_siz (b_arr b)) o'
+               | None => True end
+    | WBNew siz num => BUF_HDR + (if siz =? 0 then 1 else siz) * num < HALF
+    | _ => True
+    end.
+
+  (* what a handle represents: element size, capacity, abstract sequence *)
+  Definition vview (x : option (N * vec)) : option (N * N * list elem) :=
+    match x with Some (_, v) => Some (a_siz (v_arr v), a_mem (v_arr v), abs (v_arr v)) | None => None end.
+  Definition bview (x : option buf) : option (N * N * list elem) :=
+    match x with Some b => Some (a_siz (b_arr b), a_mem (b_arr b), abs (b_arr b)) | None => None end.
+
+  Definition view_step (k : kind) (o : op) (r : out) (before after : option (N * N * list elem)) : Prop :=
+    match before, after with
+    | Some (siz, mem, l), Some (siz', mem', l') =>
+        op_spec k siz mem l o (o_ret r) (o_dtor r) siz' mem' l'
+    | None, None => o_ret r = RVoid /\ o_dtor r = []
+    | _, _ => False
+    end.
+
+  Definition wstep_post (w : world) (o : wop) (w' : world) (r : out) : Prop :=
+    o_err r = None /\
+    match o with
+    | WV which o' =>
+        view_step KVec o' r (vview (get_v w which)) (vview (get_v w' which))
+        /\ get_v w' (negb which) = get_v w (negb which) /\ w_b w' = w_b w
+    | WB o' =>
+        view_step KBuf o' r (bview (w_b w)) (bview (w_b w'))
+        /\ w_v0 w' = w_v0 w /\ w_v1 w' = w_v1 w
+    | WVSwap =>
+        w_b w' = w_b w /\
+        ((vview (w_v0 w') = vview (w_v1 w) /\ vview (w_v1 w') = vview (w_v0 w)
+          /\ w_v0 w <> None /\ w_v1 w <> None)
+         \/ ((w_v0 w = None \/ w_v1 w = None) /\ w' = w))
+    | WVNew which siz =>
+        get_v w' (negb which) = get_v w (negb which) /\ w_b w' = w_b w /\
+        (match get_v w which with
+         | Some _ => w' = w
+         | None => vview (get_v w' which) = None
+                   \/ vview (get_v w' which) = Some ((if siz =? 0 then 1 else siz), 0, [])
+         end)
+    | WVDie which dt =>
+        get_v w' (negb which) = get_v w (negb which) /\ w_b w' = w_b w /\ get_v w' which = None /\
+        o_dtor r = match vview (get_v w which) with
+                   | Some (_, _, l) => if dt then rev l else []
+                   | None => [] end
+    | WBNew siz num =>
+        w_v0 w' = w_v0 w /\ w_v1 w' = w_v1 w /\
+        (match w_b w with
+         | Some _ => w' = w
+         | None => bview (w_b w') = None
+                   \/ bview (w_b w') = Some ((if siz =? 0 then 1 else siz), num, [])
+         end)
+    | WBDie dt =>
+        w_v0 w' = w_v0 w /\ w_v1 w' = w_v1 w /\ w_b w' = None /\
+        o_dtor r = match bview (w_b w) with
+                   | Some (_, _, l) => if dt then rev l else []
+                   | None => [] end
+    end.
+
+  (** every operation's precondition holds in the state in which it is executed *)
+  Fixpoint hist_pre (w : world) (ops : list wop) : Prop :=
+    match ops with
+    | [] => True
+    | o :: ops' => wop_pre w o /\ hist_pre (fst (wstep cmp w o)) ops'
+    end.
+  (** the history is carried out without model error, the invariant holds after every operation and
+      every operation meets its specification *)
+  Fixpoint hist_post (w : world) (ops : list wop) : Prop :=
+    match ops with
+    | [] => True
+    | o :: ops' => world_inv (fst (wstep cmp w o))
+                   /\ wstep_post w o (fst (wstep cmp w o)) (snd (wstep cmp w o))
+                   /\ hist_post (fst (wstep cmp w o)) ops'
+    end.
 End Spec.
